@@ -117,6 +117,8 @@ impl<'a> Ev<'a> {
             Cond::Let(v, e) => { let x = self.expr(e, env); env.push((*v, x)); true }
             Cond::IfLetHalf(v, e) => { let x = self.expr(e, env); if x % 2 == 0 { env.push((*v, x / 2)); true } else { false } }
             Cond::LatAbove(l, e) => { let ty = &self.lat_of[l]; code::above(ty, get(env, *l).unwrap(), self.expr(e, env)) }
+            Cond::IfLetConst(v, c) => get(env, *v).expect("reference: unbound variable") == *c,
+            Cond::IfLetBind(n, v) => { let x = get(env, *v).expect("reference: unbound variable"); env.push((*n, x)); true }
         }
     }
     fn match_tuple(&self, args: &[Arg], t: &[i32], env: &mut Env) -> bool {
@@ -174,6 +176,7 @@ impl<'a> Ev<'a> {
                         vec![(if s < 0 { -q } else { q }) as i32]
                     },
                     AggFn::Percentile50 => if vals.is_empty() { vec![] } else { let mut s = vals.clone(); s.sort(); let i = (s.len() / 2).min(s.len() - 1); vec![s[i]] },
+                    AggFn::Not => if count == 0 { vec![0] } else { vec![] },
                     AggFn::MinMax => { let mn = vals.iter().min(); let mx = vals.iter().max(); match (mn, mx) { (Some(a), Some(b)) if a != b => vec![*a, *b], (Some(a), _) => vec![*a], _ => vec![] } }
                 };
                 for r in results { env.push((*res, r)); self.body(rest, env, out); env.truncate(mark); }
